@@ -218,9 +218,9 @@ pub fn run(r: &Report, which: &str) {
         },
     };
     if c07 {
-        r.set_rule("every string of <= N atoms over {each character of ds and de, every proper prefix (len>=2) of ds and de, ds, de, ' ', '\\n', 'a', 'é'(2B), 'あ'(3B), '🧹'(4B)} per delimiter pair, tokenized by the real tokenizer; oracle = the intrinsic partition clauses of C07; non-trivial = distinct strings with >= 1 reference tag token, or ending in a multi-byte character after a failed delimiter start");
+        r.set_rule("every string of <= N atoms over {each character of ds and de, every proper prefix (len>=2) of ds and de, ds, de, ' ', '\\n', 'a', 'é'(2B), 'あ'(3B), '🧹'(4B)} per delimiter pair (strings of <= 3 atoms also embedded in 67-byte, 4 KiB multi-byte and 5 KiB fillers), tokenized by the real tokenizer; oracle = the intrinsic partition clauses of C07; non-trivial = distinct strings with >= 1 reference tag token, or ending in a multi-byte character after a failed delimiter start");
     } else {
-        r.set_rule("every string of <= N atoms over {each character of ds and de, every proper prefix (len>=2), overlap rests, ds, de, 'a', ' '} per delimiter pair; oracle = tag spans equal the textbook leftmost-shortest scan (reference uses str::find); non-trivial = distinct strings with >= 1 reference tag and >= 1 failed partial delimiter match");
+        r.set_rule("every string of <= N atoms over {each character of ds and de, every proper prefix (len>=2), overlap rests, ds, de, 'a', ' '} per delimiter pair (strings of <= 3 atoms also embedded in 67-byte, 4 KiB multi-byte and 5 KiB fillers); oracle = tag spans equal the textbook leftmost-shortest scan (reference uses str::find); non-trivial = distinct strings with >= 1 reference tag and >= 1 failed partial delimiter match");
     }
     r.assume("delimiters are non-empty (the subject unwraps the first delimiter character)");
     let mut per_pair = vec![];
@@ -271,7 +271,30 @@ impl<'r> Drop for W<'r> {
     }
 }
 
+/// the same string embedded in long filler: a scan that changes strategy with the length of the
+/// input (block-wise search, size thresholds) or mixes byte and character offsets far from the
+/// start sees every short string again at a large offset
+fn embeddings(doc: &str) -> Vec<String> {
+    let a67 = "a".repeat(67);
+    let mb = "あé🧹a".repeat(420); // 4200 bytes, 1680 characters
+    vec![
+        format!("{a67}{doc}"),
+        format!("{doc}{a67}"),
+        format!("{mb}{doc}{a67}{doc}"),
+        format!("{}{doc}{}", "a".repeat(4099), "a".repeat(1030)),
+    ]
+}
+
 fn visit(w: &mut W, c07: bool, depth: usize, doc: &str, ds: &str, de: &str) {
+    visit_one(w, c07, depth, doc, ds, de);
+    if (1..=3).contains(&depth) {
+        for e in embeddings(doc) {
+            visit_one(w, c07, depth, &e, ds, de);
+        }
+    }
+}
+
+fn visit_one(w: &mut W, c07: bool, depth: usize, doc: &str, ds: &str, de: &str) {
     let l = &mut w.l;
     l.eval();
     l.transition(if depth > 0 { 1 } else { 0 });
